@@ -27,7 +27,7 @@ CONSTANTS
                    \*   name, kind       "dict" (DictState) | "typed" (CState(PState): fields a | a, b)
                    \*   setpaths         set of paths (sequences of segments) used by set
                    \*   valkinds         subset of {"S","M","L","LM"}: scalar / {"b": n} / [n, n+50] / [{"a": n}, n+50]
-                   \*   variants         subset of {"dict","child","parent"} for set_state
+                   \*   variants         subset of {"dict","child","parent","parent0"} for set_state
                    \*   editkeys, mutkeys, clear, probe
                    \*   ppaths           sequence of paths read by every probe
                    \*   maxops, maxh
@@ -69,6 +69,7 @@ MkVal(vk, i) == CASE vk = "S" -> S(i)
 MkState(sv, i) == CASE sv = "dict" -> M("b" :> S(i))
                     [] sv = "child" -> M([a |-> S(i), b |-> S(0)])       \* CState(a=i)
                     [] sv = "parent" -> M([a |-> S(i)])                  \* PState(a=i)
+                    [] sv = "parent0" -> M([a |-> S(0)])                 \* PState(): every field left at its default (unset)
 
 NextH == "h" \o ToString(Cardinality(DOMAIN st.hs) + 1)
 LastOp == IF hist = <<>> THEN "" ELSE hist[Len(hist)].o.op
